@@ -12,7 +12,7 @@ from typing import (
     Union,
 )
 
-from numpy import logical_not, ndarray
+from numpy import copyto, empty_like, logical_not, ndarray
 
 from mygrad._utils import WeakRefIterable
 from mygrad.operation_base import Operation
@@ -273,7 +273,11 @@ class UnView(Operation):
         # dℒ/d(base) = [0., 0., g2]
         # dℒ/d(view) = [g0, g1]
         if index == 0:  # compute dℒ/d(base)
-            grad = grad.copy()
+            # The copy is laid out in memory like the base so that replaying
+            # the view-functions on it produces views, as it did for the base
+            base_grad = empty_like(placeholder_base.data, dtype=grad.dtype)
+            copyto(base_grad, grad)
+            grad = base_grad
             grad_view = grad
             for fn in self._view_fn_seq:
                 grad_view = fn(grad_view)
